@@ -157,6 +157,7 @@ type subConnRef struct {
 	stateSignal chan struct{} // This channel is closed and re-created when subConn or its state changes.
 	affinityCnt int32         // Keeps track of the number of keys bound to the subConn.
 	streamsCnt  int32         // Keeps track of the number of streams opened on the subConn.
+	respMu      sync.Mutex    // Guards lastResp and refreshCnt, which completion callbacks update concurrently.
 	lastResp    time.Time     // Timestamp of the last response from the server.
 	deCalls     uint32        // Keeps track of deadline exceeded calls since last response.
 	refreshing  bool          // If this subconn is in the process of refreshing.
@@ -192,9 +193,18 @@ func (ref *subConnRef) deCallsInc() uint32 {
 }
 
 func (ref *subConnRef) gotResp() {
+	ref.respMu.Lock()
 	ref.lastResp = time.Now()
 	atomic.StoreUint32(&ref.deCalls, 0)
 	ref.refreshCnt = 0
+	ref.respMu.Unlock()
+}
+
+// respState returns the timestamp of the last response and the number of refreshes since then.
+func (ref *subConnRef) respState() (time.Time, uint32) {
+	ref.respMu.Lock()
+	defer ref.respMu.Unlock()
+	return ref.lastResp, ref.refreshCnt
 }
 
 type gcpBalancer struct {
@@ -510,9 +520,11 @@ func (gb *gcpBalancer) UpdateSubConnState(sc balancer.SubConn, scs balancer.SubC
 		gb.scRefs[sc] = scRef
 		scRef.subConn = sc
 		atomic.StoreUint32(&scRef.deCalls, 0)
+		scRef.respMu.Lock()
 		scRef.lastResp = time.Now()
-		scRef.refreshing = false
 		scRef.refreshCnt++
+		scRef.respMu.Unlock()
+		scRef.refreshing = false
 		gb.cc.RemoveSubConn(oldSc)
 	}
 
